@@ -1790,7 +1790,6 @@ func c1Errors(c *Ctx, rule string) {
 	}
 }
 
-
 // c1Brackets: bracket discipline of every entry point of the JSON encoder, by path exploration with the helpers that
 // can write a bracket explored inline: on every path the brackets written form a balanced, properly nested sequence
 // by the time the method returns (including the marshaler-error path); the only exception is OpenNamespace, whose
